@@ -27,18 +27,19 @@ from mc.core import Acc, rotate
 ID = "C16"
 LEVEL = "model_checking"
 ASSUMPTIONS = [
-    "histories: queries are non-empty subsets of 4 assertion ids (plus one 30-id scenario for wrapped cores); ground-truth families of unsatisfiable sets {{a,b}}, {{a},{b,c}}, {{a,b,c}}, {{d}}; core shapes minimal / whole query / with (error ...) line / wrapped lines / empty / garbage; sequences of length <= 3 (thorough 4)",
+    "histories: queries are non-empty subsets of 4 assertion ids (textually nested: 7, 71, 171, 27) (plus one 30-id scenario for wrapped cores); ground-truth families of unsatisfiable sets {{a,b}}, {{a},{b,c}}, {{a,b,c}}, {{d}}; core shapes minimal / whole query / with (error ...) line / wrapped lines / empty / garbage; sequences of length <= 3 (thorough 4)",
     "the scripted solver replaces halmos.solve.PopenFuture inside the harness process (seam); dump(), SolverOutput.from_result, parse_unsat_core, check_unsat_cores and solve_end_to_end are the real code; cores are appended to the shared context exactly as CounterexampleHandler does",
     "differential runs use the real z3 and yices binaries with a 10 s limit and answer every *branching* query `unknown` (seam on Path.check) so that infeasible paths reach the external solver and produce cores; a test whose solver call times out in either mode is not compared",
     "garbage collection is explored as an on/off deviation at every query construction (gc.collect() before Path.to_smt2)",
 ]
 
-IDS = ["11", "12", "13", "14"]
+A_, B_, C_, D_ = "7", "71", "171", "27"  # one id is a substring of another, as with z3's decimal ast ids
+IDS = [A_, B_, C_, D_]
 FAMILIES = {
-    "ab": [{"11", "12"}],
-    "a|bc": [{"11"}, {"12", "13"}],
-    "abc": [{"11", "12", "13"}],
-    "d": [{"14"}],
+    "ab": [{A_, B_}],
+    "a|bc": [{A_}, {B_, C_}],
+    "abc": [{A_, B_, C_}],
+    "d": [{D_}],
 }
 CORE_STYLES = ["minimal", "full", "error-line", "wrapped", "empty", "garbage"]
 
@@ -185,9 +186,9 @@ def histories(tier):
         if n <= 2:
             pool = subsets
         elif n == 3:
-            pool = [s for s in subsets if len(s) in (1, 2, 4) or s == ("11", "12", "13")]
+            pool = [s for s in subsets if len(s) in (1, 2, 4) or s == (A_, B_, C_)]
         else:
-            pool = [("11",), ("12", "13"), ("11", "12"), ("11", "12", "13"), ("12", "13", "14"), tuple(IDS)]
+            pool = [(A_,), (B_, C_), (A_, B_), (A_, B_, C_), (B_, C_, D_), tuple(IDS)]
         for seq in itertools.product(pool, repeat=n):
             yield list(seq)
 
@@ -248,6 +249,7 @@ class HitLog:
         self.installed = False
         self.hits = None
         self.force_gc = False
+        self.light = False  # no per-condition bookkeeping and no collections inside a test; reclaim only between tests
         self.solver_results = []
         self.core_sexpr, self.last_sexpr, self.sexpr_at_solve, self.reused = {}, {}, {}, []
 
@@ -271,10 +273,24 @@ class HitLog:
             return out
 
         M.solve_end_to_end = solve_end_to_end
+        orig_run_test = M.run_test
+
+        def run_test(ctx):
+            # the objects of the finished test are reclaimed before the next one starts (z3 hands out the ids of freed terms again)
+            if me.light:
+                gc.collect()
+            return orig_run_test(ctx)
+
+        M.run_test = run_test
 
         def check_unsat_cores(query, cores):
             # state invariant: the ids named by the cached cores must still denote the conditions they denoted when the core was
             # produced (they are z3 ast ids; if the ast was reclaimed the id may now belong to a different condition)
+            if me.light:
+                r = orig(query, cores)
+                if r and me.hits is not None:
+                    me.hits.append(query)
+                return r
             if me.hits is not None and not cores:
                 # a fresh solving context (its core list is still empty): forget what an earlier list at the same address held
                 for k in [k for k in me.core_sexpr if k[0] == id(cores)]:
@@ -298,9 +314,9 @@ class HitLog:
             return r
 
         def to_smt2(path_self, args):
-            if me.force_gc:
+            if me.force_gc and not me.light:
                 gc.collect()
-            if me.hits is not None:
+            if me.hits is not None and not me.light:
                 for cond in path_self.conditions:
                     i = str(cond.get_id())
                     sx = cond.sexpr()
@@ -312,7 +328,7 @@ class HitLog:
 
         def append(path_self, cond, branching=False):
             # reclaim finished paths before every new condition is created/recorded: a freed z3 ast id may be handed out again
-            if me.force_gc:
+            if me.force_gc and not me.light:
                 gc.collect()
             return orig_append(path_self, cond, branching)
 
@@ -357,6 +373,20 @@ def custom_contract(which):
     X, Y = e2e.arg(0), e2e.arg(1)
     m = lambda v: v + [("push", 0xF), "AND"]
     prod = m(Y) + m(X) + ["MUL"]
+    if which == "pairs":
+        # many tests in one contract; the a-tests yield cores over test-local conditions (refined queries), the b-tests are satisfiable:
+        # nothing cached by one test may answer a query of a later one (cores are per test; ids of reclaimed conditions are recycled)
+        def body(ks, shift):
+            items = []
+            for j, k2 in enumerate(ks):
+                items += e2e.if_then(Y + X + [("push", k2), "ADD", ("push", 1), shift] + ["MUL", ("push", 1), "AND"], e2e.panic(1), f"p{j}")
+            return items + ["STOP"]
+
+        funcs = {"setUp()": ["STOP"]}
+        for i in range(8):
+            funcs[f"check_a{i}(uint256,uint256)"] = body([3 * i + 1, 3 * i + 2, 3 * i + 3], "SHL")
+            funcs[f"check_b{i}(uint256,uint256)"] = body([i + 1], "SHR")
+        return e2e.Contract("K", funcs)
     if which == "refine":
         funcs = {
             "setUp()": ["STOP"],
@@ -384,7 +414,8 @@ def custom_contract(which):
     return e2e.Contract("K", funcs)
 
 
-CUSTOM_EXPECT = {"check_r1(uint256,uint256)": 0, "check_r2(uint256,uint256)": 1, "check_r3(uint256,uint256)": 1, "check_r4(uint256,uint256)": 0,
+CUSTOM_EXPECT = {**{f"check_a{i}(uint256,uint256)": 0 for i in range(8)}, **{f"check_b{i}(uint256,uint256)": 1 for i in range(8)},
+                 "check_r1(uint256,uint256)": 0, "check_r2(uint256,uint256)": 1, "check_r3(uint256,uint256)": 1, "check_r4(uint256,uint256)": 0,
                  "check_pay(uint256,uint256)": 1, "check_pay2(uint256,uint256)": 1}
 
 
@@ -410,6 +441,7 @@ def check_differential(acc, contract_desc, solver, force_gc):
         hitlog.hits = [] if cache else None
         hitlog.core_sexpr, hitlog.last_sexpr, hitlog.sexpr_at_solve, hitlog.reused = {}, {}, {}, []
         hitlog.force_gc = force_gc
+        hitlog.light = bool(contract_desc.get("light"))
         hitlog.solver_results = []
         # every branching query is answered `unknown` (as with a too-short branching timeout), so that infeasible paths reach
         # the external solver and produce unsat cores
@@ -419,6 +451,7 @@ def check_differential(acc, contract_desc, solver, force_gc):
             rr = e2e.run_contract(c, options=opts)
         finally:
             hitlog.force_gc = False
+            hitlog.light = False
             hdriver.check_seam.force_all = False
         hits = hitlog.hits
         hitlog.hits = None
@@ -473,7 +506,7 @@ def check_differential(acc, contract_desc, solver, force_gc):
 
 
 def diff_cases(tier):
-    out = [{"kind": "custom", "which": "refine"}, {"kind": "custom", "which": "implicit"}]
+    out = [{"kind": "custom", "which": "refine"}, {"kind": "custom", "which": "implicit"}, {"kind": "custom", "which": "pairs"}, {"kind": "custom", "which": "pairs", "light": True}]
     for variant in ("ranges", "shared", "assume"):
         for nk in ((6, 12) if tier == "quick" else (6, 12, 24, 40)):
             out.append({"kind": "many", "nk": nk, "variant": variant})
@@ -529,7 +562,7 @@ def run_shard(shard):
                 break
         else:
             acc.state((shard["family"], shard["style"]))
-        acc.sample({"family": shard["family"], "core_style": shard["style"], "histories": n, "example": [["11", "12"], ["11"], ["11", "12", "13"]]})
+        acc.sample({"family": shard["family"], "core_style": shard["style"], "histories": n, "example": [[A_, B_], [A_], [A_, B_, C_]]})
     else:
         check_differential(acc, shard["desc"], shard["solver"], shard["gc"])
         acc.sample({"differential": str(shard["desc"])[:200], "solver": shard["solver"], "forced_gc": shard["gc"]})
